@@ -728,6 +728,277 @@ example : (alarmWitness.gens.map (·.stack)).contains [.wrapThr 2, .children 1 0
       (tick alarmDemo (tick alarmDemo alarmWitness ⟨0, 2/10, 2/10, [1]⟩).1 ⟨0, 3/10, 3/10, [1]⟩).1.events := by
   decide +kernel
 
+/-! ## runs: one generator resumed tick after tick in an arbitrary environment
+
+`S j` is the state in which the generator is resumed for the `j`-th time (j = 0, 1, …): whatever the
+other generators, the command manager, cancel / force requests and the next tick's clock inputs have
+made of the state in between — no assumption except the ones stated.  Ticks in which the interpreter
+does not run (Pause, Hold) simply do not occur in the sequence; the tick *time* (`St.tickTime`, the
+engine's tick time, wall clock) and the scope / block clocks are whatever the engine feeds. -/
+
+/-- **C03, second clause, over a run.**  A generator that stands at the threshold point of `n` does
+    nothing at all in every resumption in which the threshold is still awaited, and starts `n` in the
+    first resumption in which `_is_awaiting_threshold(n)` is false. -/
+theorem threshold_run (p : Prog) (n : Nat) (below : List Frame) (fuel : Nat) (S : Nat → St) (k : Nat)
+    (hwait : ∀ j, j < k → ((S j).rt n).started = false ∧ ((S j).rt n).completed = false ∧
+      awaitingThreshold p (S j) n = true ∧ inEndedBlock p (S j) below n = false)
+    (hgo : awaitingThreshold p (S k) n = false) :
+    (∀ j, j < k → runGen p (fuel + 1) (S j) (.wrapThr n :: below) = (S j, .wrapThr n :: below, true)) ∧
+    runGen p (fuel + 1) (S k) (.wrapThr n :: below) =
+      (emit (setRt (S k) n (fun r => { r with started := true })) (.start n), .wrapDispatch n :: below, true) :=
+  ⟨fun j hj => runGen_waits p fuel (S j) n below (hwait j hj).1 (hwait j hj).2.1 (hwait j hj).2.2.1 (hwait j hj).2.2.2,
+   runGen_prompt p fuel (S k) n below hgo⟩
+
+/-- …from the moment the line is *entered* (`begin_visit`: the record is created — by C02 exactly when the
+    visit of the previous line has returned): the same micro-run reaches the threshold point. -/
+theorem entered_line_reaches_threshold_point (p : Prog) (s : St) (c : Nat) (below : List Frame) (fuel : Nat)
+    (hc : (s.rt c).completed = false) :
+    runGen p (fuel + 2) s (.wrapEnter c :: below) =
+      runGen p (fuel + 1) (setRt s c (fun r => { r with hasRecord := true })) (.wrapThr c :: below) := by
+  have e : stepGen p s (.wrapEnter c :: below) =
+      (setRt s c (fun r => { r with hasRecord := true }), .wrapThr c :: below, .cont) := by
+    simp [stepGen, stepFrame, hc]
+  rw [runGen, e]
+
+/-- The state change of `begin_visit` is invisible to the threshold test and the ended-block test. -/
+theorem entered_line_starts_at_first_eligible_run (p : Prog) (c : Nat) (below : List Frame) (fuel : Nat)
+    (S : Nat → St) (k : Nat) (hc0 : ((S 0).rt c).completed = false)
+    (hwait : ∀ j, j < k → ((S j).rt c).started = false ∧ ((S j).rt c).completed = false ∧
+      awaitingThreshold p (S j) c = true ∧ inEndedBlock p (S j) below c = false)
+    (hgo : awaitingThreshold p (S k) c = false) :
+    -- the run in which the line is entered:
+    (runGen p (fuel + 2) (S 0) (.wrapEnter c :: below)).2.1 =
+      (if k = 0 then .wrapDispatch c :: below else .wrapThr c :: below) ∧
+    (k = 0 → Event.start c ∈ (runGen p (fuel + 2) (S 0) (.wrapEnter c :: below)).1.events) ∧
+    -- later resumptions at the threshold point:
+    (∀ j, 0 < j → j < k → runGen p (fuel + 1) (S j) (.wrapThr c :: below) = (S j, .wrapThr c :: below, true)) ∧
+    (0 < k → runGen p (fuel + 1) (S k) (.wrapThr c :: below) =
+      (emit (setRt (S k) c (fun r => { r with started := true })) (.start c), .wrapDispatch c :: below, true)) := by
+  let s0 := setRt (S 0) c (fun r => { r with hasRecord := true })
+  have ha0 : awaitingThreshold p s0 c = awaitingThreshold p (S 0) c :=
+    awaiting_setRt p (S 0) c c _ (fun _ => ⟨rfl, rfl⟩)
+  have hb0 : inEndedBlock p s0 below c = inEndedBlock p (S 0) below c :=
+    inEndedBlock_setRt p (S 0) c c below _ (fun _ => rfl)
+  rw [entered_line_reaches_threshold_point p (S 0) c below fuel hc0]
+  refine ⟨?_, ?_, ?_, ?_⟩
+  · by_cases hk : k = 0
+    · subst hk
+      rw [runGen_prompt p fuel s0 c below (ha0.trans hgo)]; simp
+    · have h := hwait 0 (by omega)
+      have hs : (s0.rt c).started = false := by simp [s0, h.1]
+      have hcc : (s0.rt c).completed = false := by simp [s0, h.2.1]
+      rw [runGen_waits p fuel s0 c below hs hcc (ha0.trans h.2.2.1) (hb0.trans h.2.2.2)]; simp [hk]
+  · intro hk; subst hk
+    rw [runGen_prompt p fuel s0 c below (ha0.trans hgo)]; simp [emit]
+  · intro j _ hj
+    have h := hwait j hj
+    exact runGen_waits p fuel (S j) c below h.1 h.2.1 h.2.2.1 h.2.2.2
+  · intro _
+    exact runGen_prompt p fuel (S k) c below hgo
+
+
+/-- **C03, second clause, over ticks (main visitor).**  `s j` is the state before the `j`-th tick (anything may
+    have happened between the ticks), `i j` its clock inputs.  While the main visitor stands at the threshold
+    point of `n`: in every tick in which the threshold is awaited for that tick's clocks the visitor changes
+    nothing, and in the first tick in which it is not awaited `start n` is among the tick's events. -/
+theorem main_threshold_ticks (p : Prog) (n : Nat) (below : List Frame) (s : Nat → St) (i : Nat → TickIn) (k : Nat)
+    (hgen : ∀ j, j ≤ k → ∃ g, getGen (s j) 0 = some g ∧ g.stack = .wrapThr n :: below)
+    (hwait : ∀ j, j < k → ((s j).rt n).started = false ∧ ((s j).rt n).completed = false ∧
+      awaitingThreshold p (tickStart (s j) (i j)) n = true ∧ inEndedBlock p (tickStart (s j) (i j)) below n = false)
+    (hgo : awaitingThreshold p (tickStart (s k) (i k)) n = false) :
+    (∀ j, j < k → runGid p microFuel (tickStart (s j) (i j)) 0 =
+        (setGenStack (tickStart (s j) (i j)) 0 (.wrapThr n :: below), true)) ∧
+    Event.start n ∈ (tick p (s k) (i k)).1.events := by
+  constructor
+  · intro j hj
+    obtain ⟨g, hg, hst⟩ := hgen j (by omega)
+    have h := hwait j hj
+    exact main_waits_tick p (s j) (i j) g n below hg hst h.1 h.2.1 h.2.2.1 h.2.2.2
+  · obtain ⟨g, hg, hst⟩ := hgen k (Nat.le_refl k)
+    exact main_prompt_tick p (s k) (i k) g n below hg hst hgo
+
+/-! ### Wait over a run -/
+
+/-- Entering `Wait: d` (`d ≥ 0.1`) and the first test of the loop happen in the same micro-run. -/
+theorem wait_enter_run (p : Prog) (s : St) (n : Nat) (d : Rat) (below : List Frame) (fuel : Nat)
+    (hk : (node p n).kind = .wait d) (hd : ¬ (d - 1/10 < 0)) :
+    runGen p (fuel + 2) s (.body n 0 :: below) =
+      runGen p (fuel + 1)
+        (setRt s n (fun r => { r with waitStart := some ((s.rt n).waitStart.getD s.tickTime) }))
+        (.waitLoop n ((s.rt n).waitStart.getD s.tickTime + d - 1/10) :: below) := by
+  have e : stepGen p s (.body n 0 :: below) =
+      (setRt s n (fun r => { r with waitStart := some ((s.rt n).waitStart.getD s.tickTime) }),
+       .waitLoop n ((s.rt n).waitStart.getD s.tickTime + d - 1/10) :: below, .cont) := by
+    simp only [stepGen, stepFrame, wait_enter p s n d below hk hd, List.cons_append, List.nil_append]
+  rw [runGen, e]
+
+/-- **The Wait loop over a run.**  `S j` = the state in which the generator holding the loop frame is resumed
+    for the `j`-th time.  While the tick time is before the deadline (and the node is not forced) each
+    resumption ends the tick and changes nothing; the first resumption whose tick time has reached the
+    deadline (or that finds the node forced) completes the Wait and ends the tick. -/
+theorem wait_loop_run (p : Prog) (n : Nat) (endT : Rat) (below : List Frame) (fuel : Nat) (S : Nat → St) (k : Nat)
+    (hhold : ∀ j, j < k → (S j).tickTime < endT ∧ ((S j).rt n).forced = false ∧
+      ((S j).rt n).waitStart.isSome = true)
+    (hexit : endT ≤ (S k).tickTime ∨ ((S k).rt n).forced = true) :
+    (∀ j, j < k → runGen p (fuel + 1) (S j) (.waitLoop n endT :: below) = (S j, .waitLoop n endT :: below, true)) ∧
+    runGen p (fuel + 1) (S k) (.waitLoop n endT :: below) = (finishNode (S k) n, .body n 2 :: below, true) := by
+  constructor
+  · intro j hj
+    have h := hhold j hj
+    simp only [runGen, stepGen, wait_holds p (S j) n endT below h.1 h.2.1 h.2.2, List.cons_append, List.nil_append]
+  · simp only [runGen, stepGen, wait_releases p (S k) n endT below hexit, List.cons_append, List.nil_append]
+
+/-- After the Wait has completed, the next resumption returns from the Wait's visit and — under the hypotheses
+    of `successor_started_same_tick` — starts the next line in that very tick. -/
+theorem wait_successor_started (p : Prog) (s : St) (n par inx c' : Nat) (d : Rat) (below : List Frame) (fuel : Nat)
+    (hk : (node p n).kind = .wait d)
+    (hkid : (node p par).children[inx + 1]? = some c')
+    (hn : (s.rt par).completed = false) (hcc : (s.rt par).childrenComplete = false)
+    (hci : (s.rt par).childIndex ≤ inx) (hc' : (s.rt c').completed = false)
+    (hblk : inEndedBlock p s (.children par (inx + 1) false :: below) c' = false)
+    (hthr : awaitingThreshold p s c' = false) :
+    ∃ s', runGen p (fuel + 6) s (.body n 2 :: .wrapAfter n :: .children par inx true :: below) =
+        (s', .wrapDispatch c' :: .children par (inx + 1) true :: below, true) ∧
+      (s'.rt c').started = true ∧ Event.start c' ∈ s'.events ∧ s'.tickTime = s.tickTime := by
+  have e : stepGen p s (.body n 2 :: .wrapAfter n :: .children par inx true :: below) =
+      (s, .wrapAfter n :: .children par inx true :: below, .cont) := by
+    have eb : stepBody p s n 2 (.wrapAfter n :: .children par inx true :: below) = .next s [] .cont := by
+      unfold stepBody; simp [hk]
+    simp [stepGen, stepFrame, eb]
+  obtain ⟨s', hrun, hst, hev⟩ :=
+    successor_started_same_tick p s par inx n c' below fuel hkid hn hcc hci hc' hblk hthr
+  refine ⟨s', ?_, hst, hev, ?_⟩
+  · have : fuel + 6 = (fuel + 5) + 1 := by omega
+    rw [this, runGen, e]; exact hrun
+  · have hw := within_runGen p (fuel + 5) s (.wrapAfter n :: .children par inx true :: below)
+    rw [hrun] at hw
+    have := within_clk hw
+    exact congrArg (fun x => x.1) this
+
+
+/-- **C03, third clause, on the frame machine.**  A `Wait: d` (`d ≥ 0.1 s`) is entered for the first time in the
+    resumption `S 0` of its generator (tick time `T 0`); `S j` are the states of the later resumptions of that
+    generator, `T j` their tick times; `k` is the first resumption whose tick time has reached
+    `T 0 + d − 0.1` (`hhold`, `hexit`: nothing is assumed about `k` but that).  Then, whatever the rest of the
+    method and the other generators do in between (as long as nobody forces the Wait or resets its start time):
+    the Wait's frame waits through the resumptions `< k`, completes in resumption `k`, and in resumption `k+1`
+    the visit returns and the next line `c'` is started (given the hypotheses of `successor_started_same_tick`
+    for that state: parent live, `c'` not completed / not in an ended block / threshold not awaited). -/
+theorem wait_run (p : Prog) (n par inx c' : Nat) (d : Rat) (below : List Frame) (fuel : Nat) (S : Nat → St) (k : Nat)
+    (hk : (node p n).kind = .wait d) (hd : ¬ (d - 1/10 < 0))
+    (hfirst : ((S 0).rt n).waitStart = none)
+    (hhold : ∀ j, j < k → (S j).tickTime < (S 0).tickTime + d - 1/10 ∧ ((S j).rt n).forced = false ∧
+      (0 < j → ((S j).rt n).waitStart.isSome = true))
+    (hexit : (S 0).tickTime + d - 1/10 ≤ (S k).tickTime)
+    (hkid : (node p par).children[inx + 1]? = some c')
+    (hn : ((S (k + 1)).rt par).completed = false) (hcc : ((S (k + 1)).rt par).childrenComplete = false)
+    (hci : ((S (k + 1)).rt par).childIndex ≤ inx) (hc' : ((S (k + 1)).rt c').completed = false)
+    (hblk : inEndedBlock p (S (k + 1)) (.children par (inx + 1) false :: below) c' = false)
+    (hthr : awaitingThreshold p (S (k + 1)) c' = false) :
+    -- resumption 0 (the wrapper resumes after `visit_Node`'s EndTick): the Wait is entered; it waits, or (k = 0, i.e. d = 0.1) completes at once
+    (runGen p (fuel + 3) (S 0) (.wrapDispatch n :: .children par inx true :: below)).2 =
+      (if k = 0 then (.body n 2 :: .wrapAfter n :: .children par inx true :: below, true)
+       else (.waitLoop n ((S 0).tickTime + d - 1/10) :: .wrapAfter n :: .children par inx true :: below, true)) ∧
+    -- resumptions 1 … k-1: nothing happens
+    (∀ j, 0 < j → j < k →
+      runGen p (fuel + 1) (S j) (.waitLoop n ((S 0).tickTime + d - 1/10) :: .wrapAfter n :: .children par inx true :: below) =
+        (S j, .waitLoop n ((S 0).tickTime + d - 1/10) :: .wrapAfter n :: .children par inx true :: below, true)) ∧
+    -- resumption k: the Wait completes
+    (0 < k →
+      runGen p (fuel + 1) (S k) (.waitLoop n ((S 0).tickTime + d - 1/10) :: .wrapAfter n :: .children par inx true :: below) =
+        (finishNode (S k) n, .body n 2 :: .wrapAfter n :: .children par inx true :: below, true)) ∧
+    -- resumption k+1: the next line is started, in the tick with time `T (k+1)`
+    (∃ s', runGen p (fuel + 6) (S (k + 1)) (.body n 2 :: .wrapAfter n :: .children par inx true :: below) =
+        (s', .wrapDispatch c' :: .children par (inx + 1) true :: below, true) ∧
+      Event.start c' ∈ s'.events ∧ s'.tickTime = (S (k + 1)).tickTime) := by
+  have hws : ((S 0).rt n).waitStart.getD (S 0).tickTime = (S 0).tickTime := by rw [hfirst]; rfl
+  let s0 := setRt (S 0) n (fun r => { r with waitStart := some (((S 0).rt n).waitStart.getD (S 0).tickTime) })
+  have hrun0 := wait_enter_run p (S 0) n d (.wrapAfter n :: .children par inx true :: below) fuel hk hd
+  rw [hws] at hrun0
+  -- the loop as seen by resumption j: `s0` for j = 0, `S j` afterwards
+  let L : Nat → St := fun j => if j = 0 then setRt (S 0) n (fun r => { r with waitStart := some (S 0).tickTime }) else S j
+  have hL0 : L 0 = setRt (S 0) n (fun r => { r with waitStart := some (S 0).tickTime }) := rfl
+  have hLj : ∀ j, 0 < j → L j = S j := by intro j hj; simp [L]; omega
+  have hholdL : ∀ j, j < k → (L j).tickTime < (S 0).tickTime + d - 1/10 ∧ ((L j).rt n).forced = false ∧
+      ((L j).rt n).waitStart.isSome = true := by
+    intro j hj
+    have h := hhold j hj
+    by_cases h0 : j = 0
+    · subst h0
+      rw [hL0]
+      exact ⟨h.1, by simp [h.2.1], by simp⟩
+    · rw [hLj j (by omega)]; exact ⟨h.1, h.2.1, h.2.2 (by omega)⟩
+  have hexitL : (S 0).tickTime + d - 1/10 ≤ (L k).tickTime ∨ ((L k).rt n).forced = true := by
+    left
+    by_cases h0 : k = 0
+    · subst h0; rw [hL0]; exact hexit
+    · rw [hLj k (by omega)]; exact hexit
+  have hloop := wait_loop_run p n ((S 0).tickTime + d - 1/10) (.wrapAfter n :: .children par inx true :: below)
+    fuel L k hholdL hexitL
+  have hdisp : runGen p (fuel + 3) (S 0) (.wrapDispatch n :: .children par inx true :: below) =
+      runGen p (fuel + 2) (S 0) (.body n 0 :: .wrapAfter n :: .children par inx true :: below) := by
+    have e : stepGen p (S 0) (.wrapDispatch n :: .children par inx true :: below) =
+        (S 0, .body n 0 :: .wrapAfter n :: .children par inx true :: below, .cont) := by
+      simp [stepGen, stepFrame]
+    have : fuel + 3 = (fuel + 2) + 1 := by omega
+    rw [this, runGen, e]
+  refine ⟨?_, ?_, ?_, ?_⟩
+  · rw [hdisp, hrun0]
+    by_cases h0 : k = 0
+    · subst h0
+      have := hloop.2; rw [hL0] at this; rw [this]; simp
+    · have := hloop.1 0 (by omega); rw [hL0] at this; rw [this]; simp [h0]
+  · intro j hj0 hjk
+    have := hloop.1 j hjk; rw [hLj j hj0] at this; exact this
+  · intro hk0
+    have := hloop.2; rw [hLj k hk0] at this; exact this
+  · obtain ⟨s', h1, _, h3, h4⟩ :=
+      wait_successor_started p (S (k + 1)) n par inx c' d below fuel hk hkid hn hcc hci hc' hblk hthr
+    exact ⟨s', h1, h3, h4⟩
+
+/-- **The window, from the tick times of the run.**  With `T j` the tick times of the resumptions of `wait_run`
+    (`k` the first with `T k ≥ T 0 + d − 0.1`, the next line starting in resumption `k+1`): if consecutive
+    resumptions are at least `gmin` apart, the next line starts no earlier than `d − 0.1 + gmin` after the Wait
+    began waiting; if the last two gaps together are at most `gmax`, it starts earlier than `d − 0.1 + gmax`
+    after it.  Pause and Hold only remove resumptions (the interpreter is not ticked) while the tick time goes
+    on: they enlarge gaps, so the lower bound is unaffected, and the upper bound holds whenever the two
+    resumptions around the deadline are regular. -/
+theorem wait_run_window (T : Nat → Rat) (d gmin gmax : Rat) (k : Nat)
+    (hhold : ∀ j, j < k → T j < T 0 + d - 1/10) (hexit : T 0 + d - 1/10 ≤ T k)
+    (hmin : gmin ≤ T (k + 1) - T k) (hmax : 0 < k → T (k + 1) - T (k - 1) ≤ gmax) :
+    d - 1/10 + gmin ≤ T (k + 1) - T 0 ∧ (0 < k → T (k + 1) - T 0 < d - 1/10 + gmax) := by
+  constructor
+  · grind
+  · intro hk
+    have h1 := hhold (k - 1) (by omega)
+    have h2 := hmax hk
+    grind
+
+/-- **Default interval, with timing error.**  Ticks every 0.1 s up to an error `ε` per gap (float rounding of the
+    tick times, scheduling jitter): the line after `Wait: d` (`d ≥ 0.1`) starts within `[d − ε, d + 0.1 + 2ε)` of
+    the tick in which the Wait began waiting — the property's window `[d, d + Δ]` up to the timing error; for
+    `d` on the 0.1 s grid both `d` and `d + 0.1` occur (the comparison `tick_time < start + d − 0.1` is then
+    decided by rounding), off the grid the tick is determined. -/
+theorem wait_run_window_default_interval (T : Nat → Rat) (d ε : Rat) (k : Nat) (hd : 1/10 ≤ d) (hε : 0 ≤ ε)
+    (hhold : ∀ j, j < k → T j < T 0 + d - 1/10) (hexit : T 0 + d - 1/10 ≤ T k)
+    (hgap : ∀ j, j ≤ k → 1/10 - ε ≤ T (j + 1) - T j ∧ T (j + 1) - T j ≤ 1/10 + ε) :
+    d - ε ≤ T (k + 1) - T 0 ∧ T (k + 1) - T 0 < d + 1/10 + 2 * ε := by
+  have hw := wait_run_window T d (1/10 - ε) (2/10 + 2 * ε) k hhold hexit (hgap k (Nat.le_refl k)).1 (by
+    intro hk
+    have h1 := (hgap k (Nat.le_refl k)).2
+    have h2 := (hgap (k - 1) (by omega)).2
+    have e : k - 1 + 1 = k := by omega
+    rw [e] at h2
+    grind)
+  refine ⟨by grind, ?_⟩
+  by_cases hk : k = 0
+  · subst hk
+    have h1 := (hgap 0 (Nat.le_refl 0)).2
+    simp at h1
+    grind
+  · have := hw.2 (by omega)
+    grind
+
 /-! ## non-vacuity: a concrete method run in the kernel -/
 
 /-- `Base: s / Mark: a / 1.5 Mark: b / Wait: 0.5s / Mark: c` -/
@@ -833,5 +1104,26 @@ example : ∃ s1 d ws, Within demo (tickStart (demoRun (1/10) 22)
 /-- hypotheses of `wait_window_default_interval` are satisfiable: d = 1/2, exit at k = 4. -/
 example : (0 : Rat) + 1/2 - 1/10 ≤ 0 + ((4 : Nat) : Rat) * (1/10) ∧
     ((3 : Nat) : Rat) * (1/10) < (1/2 : Rat) - 1/10 := by decide +kernel
+
+/-- resumption states of the main visitor in the demo run (Δ = 1/10): `S 0` = tick 19, in which `Wait: 0.5s` begins
+    waiting -/
+def demoS (j : Nat) : St :=
+  tickStart (demoRun (1/10) (18 + j)) ⟨(18 + j + 1 : Nat) * (1/10), (18 + j : Nat) * (1/10), (18 + j : Nat) * (1/10), []⟩
+
+/-- the hypotheses of `wait_run` hold on the demo run with `k = 4` (tick 23), so `Mark: c` starts in resumption 5
+    (tick 24), 0.5 s after the Wait began waiting; and the stored stacks are the ones the theorem speaks of -/
+example : (getGen (demoS 0) 0).map (·.stack) = some [.wrapDispatch 4, .children 0 3 true, .body 0 1, .wrapAfter 0] ∧
+    ((demoS 0).rt 4).waitStart = none ∧
+    (∀ j, j < 4 → (demoS j).tickTime < (demoS 0).tickTime + 1/2 - 1/10 ∧ ((demoS j).rt 4).forced = false ∧
+      (0 < j → ((demoS j).rt 4).waitStart.isSome = true)) ∧
+    (demoS 0).tickTime + 1/2 - 1/10 ≤ (demoS 4).tickTime ∧
+    ((demoS 5).rt 0).completed = false ∧ ((demoS 5).rt 0).childrenComplete = false ∧
+    ((demoS 5).rt 0).childIndex ≤ 3 ∧ ((demoS 5).rt 5).completed = false ∧
+    inEndedBlock demo (demoS 5) [.children 0 (3 + 1) false, .body 0 1, .wrapAfter 0] 5 = false ∧
+    awaitingThreshold demo (demoS 5) 5 = false ∧
+    (getGen (demoS 4) 0).map (·.stack) =
+      some [.waitLoop 4 ((demoS 0).tickTime + 1/2 - 1/10), .wrapAfter 4, .children 0 3 true, .body 0 1, .wrapAfter 0] ∧
+    (demoS 5).tickTime - (demoS 0).tickTime = 1/2 := by
+  decide +kernel
 
 end OPM.C03
